@@ -16,6 +16,7 @@ rm -f $pkg/zz_seed_demo_test.go
 cd /verif && chk=$(./check $id quick 2>&1 | grep -E "^VIOLATION|^FAILED|discharged" | cut -c1-220)
 code=$?
 cd /repo && git checkout -- . 
+git -C /verif checkout -- evidence/$id.json 2>/dev/null
 cp $sd/demo_test.go $pkg/zz_seed_demo_test.go
 dwo=$(go test -vet=off -count=1 -run "$tn" ./$pkg/ 2>&1 | tail -1)
 rm -f $pkg/zz_seed_demo_test.go
